@@ -2,8 +2,11 @@
 
    Model: Model/Pecc.v (bip340_k, schnorr_sign, schnorr_verify, schnorr_parse, parse_xonly,
    tagged_hash), Model/Phash.v (tagged_hash with TAG_HASH_CACHE as state; the byte-level call
-   sequence schnorr_verify_bytes), validated against buidl/pecc.py, buidl/phash.py by
-   harness/props/c02.py.  Spec: Spec/Bip340.v (Sign, Verify, lift_x from the BIP text).
+   sequence schnorr_verify_bytes; the signature object, aux=None, __eq__; sign / verify / sessions
+   with the cache threaded as state), validated against buidl/pecc.py, buidl/phash.py by
+   harness/props/c02.py.  Spec: Spec/Bip340.v (Sign, Verify, lift_x, nonce from the BIP text).
+   (1)-(4): the property on its quantifier; (5)-(11): objects of either parity, strings of any length,
+   SEC keys, literal reject clauses, s uniqueness / message binding, codec, nonce, cache inside the API.
 
    Premises that remain hypotheses (never axioms); all are discharged on the toy curve below:
      scalar_laws C         group axioms, order n, p and n prime (Proofs/GroupHyp.v)
@@ -14,7 +17,7 @@
    SHA-256 is universally quantified. *)
 From Coq Require Import Znumtheory.
 From V Require Import Base.Prelude Base.Ints Model.Pecc Model.Phash Proofs.GroupHyp Proofs.ToyCurve
-  Spec.Bip340 Proofs.EcdsaP Proofs.Bip340P.
+  Spec.Bip340 Proofs.EcdsaP Proofs.Bip340P Proofs.Bip340ExtP.
 
 (* ---------------------------------------------------------------- (1) signing = BIP340 *)
 
@@ -138,6 +141,448 @@ Definition toy_sign_then_verify (d : Z) : bool :=
 Example toy_run_even_odd :
   parity (mulT toy 1 (G toy)) = Ok 0 /\ parity (mulT toy 3 (G toy)) = Ok 1 /\
   toy_sign_then_verify 1 = true /\ toy_sign_then_verify 3 = true.
+Proof. vm_compute. repeat split; reflexivity. Qed.
+
+(* ================================================================================================
+   Deepening (Proofs/Bip340ExtP.v).  Same premises as above; every theorem is instantiated on the
+   toy curve in Section ToyInstances2 and exercised by concrete runs below.
+   ================================================================================================ *)
+
+(* ---------------------------------------------------------------- (5) verify_schnorr on objects *)
+
+(* S256Point.verify_schnorr(msg, sig) on ANY point object the constructor accepts (either parity: the
+   `-1 * self` branch) and ANY signature object (R a finite point of either parity, s any integer: the
+   constructor only rejects s >= n and the addition reduces s mod n) answers BIP340 Verify of
+   bytes(x(P)), m, bytes(x(R)) || bytes(s mod n) *)
+Theorem C02_verify_object : forall C sha256,
+  scalar_laws C -> ca C = 0 -> cp C mod 4 = 3 -> cp C <= 2 ^ 256 -> cn C <= 2 ^ 256 ->
+  forall xp yp xr yr m s, valid C (Some (xp, yp)) -> valid C (Some (xr, yr)) ->
+  schnorr_verify C sha256 (Some (xp, yp)) m (Some (xr, yr)) s =
+  Ok (bip340_verify C sha256 (to_be 32 xp) m (to_be 32 xr ++ to_be 32 (s mod cn C))).
+Proof. exact verify_object. Qed.
+Print Assumptions C02_verify_object.
+
+(* the point at infinity as key raises (no .parity attribute); as R it is answered False *)
+Theorem C02_verify_object_infinite_key : forall C sha256 m r s, schnorr_verify C sha256 None m r s = Err.
+Proof. exact verify_object_inf_key. Qed.
+Print Assumptions C02_verify_object_infinite_key.
+
+Theorem C02_verify_object_infinite_R : forall C sha256, scalar_laws C ->
+  forall xp yp m s, valid C (Some (xp, yp)) -> schnorr_verify C sha256 (Some (xp, yp)) m None s = Ok false.
+Proof. exact verify_object_inf_R. Qed.
+Print Assumptions C02_verify_object_infinite_R.
+
+(* ---------------------------------------------------------------- (6) byte strings of any length *)
+
+(* S256Point.parse(pk).verify_schnorr(msg, SchnorrSignature.parse(sig)) for key strings of ANY length
+   (x-only, compressed and uncompressed SEC) and signature strings of ANY length: True exactly when
+   both parsers succeed with finite points and BIP340 Verify accepts their 32-byte x coordinates and s *)
+Theorem C02_accepts_general : forall C sha256,
+  scalar_laws C -> ca C = 0 -> cp C mod 4 = 3 -> cp C <= 2 ^ 256 -> cn C <= 2 ^ 256 ->
+  forall pk m sig, bytes_ok sig ->
+  schnorr_accepts C sha256 pk m sig =
+  match parse_point C pk, schnorr_parse C sig with
+  | Ok (Some (xp, _)), Ok (Some (xr, _), s) =>
+      bip340_verify C sha256 (to_be 32 xp) m (to_be 32 xr ++ to_be 32 s)
+  | _, _ => false
+  end.
+Proof. exact accepts_general. Qed.
+Print Assumptions C02_accepts_general.
+
+(* signature strings of at least 32 bytes: accepted exactly when BIP340 Verify accepts the canonical
+   64-byte form (bytes 32..63 — a short tail is a short read — as an integer; later bytes ignored).
+   OUTSIDE the property's quantifier (64-byte strings), where sig_canon sig = sig: a 63-byte string
+   obtained by dropping a leading zero byte of s, and every extension of a valid signature, are accepted. *)
+Theorem C02_accepts_any_length : forall C sha256,
+  scalar_laws C -> ca C = 0 -> cp C mod 4 = 3 -> cp C <= 2 ^ 256 ->
+  lift_x C 0 = None ->
+  forall pk m sig, length pk = 32%nat -> bytes_ok pk -> bytes_ok sig -> (32 <= length sig)%nat ->
+  schnorr_accepts C sha256 pk m sig = bip340_verify C sha256 pk m (sig_canon sig).
+Proof. exact accepts_any_length. Qed.
+Print Assumptions C02_accepts_any_length.
+
+Theorem C02_sig_canon_64 : forall sig, length sig = 64%nat -> bytes_ok sig -> sig_canon sig = sig.
+Proof. exact sig_canon_64. Qed.
+Print Assumptions C02_sig_canon_64.
+
+Theorem C02_accepts_too_short : forall C sha256 pk m sig, (length sig < 32)%nat ->
+  schnorr_accepts C sha256 pk m sig = false.
+Proof. exact accepts_too_short. Qed.
+Print Assumptions C02_accepts_too_short.
+
+Theorem C02_accepts_ignores_tail : forall C sha256 pk m sig extra, length sig = 64%nat ->
+  schnorr_accepts C sha256 pk m (sig ++ extra) = schnorr_accepts C sha256 pk m sig.
+Proof. exact accepts_ignores_tail. Qed.
+Print Assumptions C02_accepts_ignores_tail.
+
+(* a key given in SEC format (33 or 65 bytes, either parity) verifies exactly like its x-only form *)
+Theorem C02_accepts_sec_key : forall C sha256,
+  scalar_laws C -> ca C = 0 -> cp C mod 4 = 3 -> cp C <= 2 ^ 256 -> cn C <= 2 ^ 256 ->
+  lift_x C 0 = None ->
+  forall x y c kb m sig, valid C (Some (x, y)) -> sec (Some (x, y)) c = Ok kb -> bytes_ok sig ->
+  schnorr_accepts C sha256 kb m sig = schnorr_accepts C sha256 (xonly (Some (x, y))) m sig.
+Proof. exact accepts_sec_key. Qed.
+Print Assumptions C02_accepts_sec_key.
+
+(* True / False / exception, exactly: on a 32-byte key and a 64-byte string the call sequence raises exactly
+   for key = 0 (AttributeError: the point at infinity has no parity), for a key or a non-zero R that is
+   no x coordinate (ValueError) and for s >= n (ValueError); it returns False for R = 0; otherwise it
+   returns the verdict of BIP340 Verify.  (No "x = 0 is not on the curve" premise is needed here.) *)
+Theorem C02_verify_bytes_exact : forall C sha256,
+  scalar_laws C -> ca C = 0 -> cp C mod 4 = 3 -> cp C <= 2 ^ 256 -> cn C <= 2 ^ 256 ->
+  forall pk m sig, length pk = 32%nat -> bytes_ok pk -> length sig = 64%nat -> bytes_ok sig ->
+  schnorr_verify_bytes C sha256 pk m sig =
+  let r := from_be (firstn 32 sig) in
+  let s := from_be (firstn 32 (skipn 32 sig)) in
+  if from_be pk =? 0 then Err
+  else match lift_x C (from_be pk) with
+       | None => Err
+       | Some _ =>
+           if r =? 0 then (if cn C <=? s then Err else Ok false)
+           else match lift_x C r with
+                | None => Err
+                | Some _ => if cn C <=? s then Err else Ok (bip340_verify C sha256 pk m sig)
+                end
+       end.
+Proof. exact verify_bytes_exact. Qed.
+Print Assumptions C02_verify_bytes_exact.
+
+(* ---------------------------------------------------------------- (7) the reject clauses, literally *)
+
+(* s >= n: rejected for every key string, message and signature string — no hypothesis at all *)
+Theorem C02_reject_s_ge_n : forall C sha256 pk m sig,
+  cn C <= from_be (firstn 32 (skipn 32 sig)) -> schnorr_accepts C sha256 pk m sig = false.
+Proof. exact reject_s_ge_n. Qed.
+Print Assumptions C02_reject_s_ge_n.
+
+Theorem C02_reject_R_zero : forall C sha256, scalar_laws C -> cp C mod 4 = 3 ->
+  forall pk m sig, (32 <= length sig)%nat -> from_be (firstn 32 sig) = 0 ->
+  schnorr_accepts C sha256 pk m sig = false.
+Proof. exact reject_R_zero. Qed.
+Print Assumptions C02_reject_R_zero.
+
+(* R is not the x coordinate of a curve point *)
+Theorem C02_reject_R_not_on_curve : forall C sha256, scalar_laws C -> ca C = 0 -> cp C mod 4 = 3 ->
+  forall pk m sig, (32 <= length sig)%nat -> bytes_ok sig ->
+  (forall y, ~ valid C (Some (from_be (firstn 32 sig), y))) ->
+  schnorr_accepts C sha256 pk m sig = false.
+Proof. exact reject_R_not_on_curve. Qed.
+Print Assumptions C02_reject_R_not_on_curve.
+
+Theorem C02_reject_R_ge_p : forall C sha256, scalar_laws C -> ca C = 0 -> cp C mod 4 = 3 ->
+  forall pk m sig, (32 <= length sig)%nat -> bytes_ok sig ->
+  cp C <= from_be (firstn 32 sig) -> schnorr_accepts C sha256 pk m sig = false.
+Proof. exact reject_R_ge_p. Qed.
+Print Assumptions C02_reject_R_ge_p.
+
+(* the 32-byte key is not the x coordinate of a curve point (0, every value >= p, off the curve) *)
+Theorem C02_reject_bad_key : forall C sha256, scalar_laws C -> ca C = 0 -> cp C mod 4 = 3 ->
+  forall pk m sig, length pk = 32%nat -> bytes_ok pk ->
+  (forall y, ~ valid C (Some (from_be pk, y))) ->
+  schnorr_accepts C sha256 pk m sig = false.
+Proof. exact reject_bad_key. Qed.
+Print Assumptions C02_reject_bad_key.
+
+(* ---------------------------------------------------------------- (8) altered s / altered message *)
+
+(* altered s: for a key, a message and the R half of a signature string at most ONE s half is accepted
+   (so every single-bit flip in bytes 32..63 of an accepted signature is rejected) — no assumption
+   about the hash function *)
+Theorem C02_accept_s_unique : forall C sha256,
+  scalar_laws C -> ca C = 0 -> cp C mod 4 = 3 -> cp C <= 2 ^ 256 ->
+  lift_x C 0 = None ->
+  forall pk m sig sig',
+  length pk = 32%nat -> bytes_ok pk -> length sig = 64%nat -> bytes_ok sig ->
+  length sig' = 64%nat -> bytes_ok sig' -> firstn 32 sig' = firstn 32 sig ->
+  schnorr_accepts C sha256 pk m sig = true -> schnorr_accepts C sha256 pk m sig' = true ->
+  sig' = sig.
+Proof. exact accept_s_unique. Qed.
+Print Assumptions C02_accept_s_unique.
+
+Theorem C02_sign_other_s_rejected : forall C sha256,
+  scalar_laws C -> ca C = 0 -> cp C mod 4 = 3 -> cp C <= 2 ^ 256 -> cn C <= 2 ^ 256 ->
+  lift_x C 0 = None ->
+  forall d m a sig sig', length m = 32%nat -> length a = 32%nat ->
+  schnorr_sign C sha256 d m a = Ok sig ->
+  length sig' = 64%nat -> bytes_ok sig' -> firstn 32 sig' = firstn 32 sig -> sig' <> sig ->
+  schnorr_accepts C sha256 (xonly (mulT C d (G C))) m sig' = false.
+Proof. exact sign_other_s_rejected. Qed.
+Print Assumptions C02_sign_other_s_rejected.
+
+(* altered message: a second message accepted with the same key and signature is the same message, or
+   two different strings collide under x |-> int(sha256(x)) mod n (the BIP340 challenge).  The other
+   tamper clauses (altered key, altered R) are what "accepts exactly when BIP340 Verify accepts" means;
+   their unforgeability rests on the discrete logarithm and is not a statement about this code. *)
+Theorem C02_accept_msg_collision : forall C sha256,
+  scalar_laws C -> ca C = 0 -> cp C mod 4 = 3 -> cp C <= 2 ^ 256 ->
+  lift_x C 0 = None ->
+  forall pk m m' sig,
+  length pk = 32%nat -> bytes_ok pk -> length sig = 64%nat -> bytes_ok sig ->
+  schnorr_accepts C sha256 pk m sig = true -> schnorr_accepts C sha256 pk m' sig = true ->
+  m = m' \/ exists x y, x <> y /\ from_be (sha256 x) mod cn C = from_be (sha256 y) mod cn C.
+Proof. exact accept_msg_collision. Qed.
+Print Assumptions C02_accept_msg_collision.
+
+(* ---------------------------------------------------------------- (9) the 64-byte codec and the object *)
+
+(* SchnorrSignature.parse(sig).serialize() == sig for every accepted 64-byte string *)
+Theorem C02_serialize_parse : forall C, scalar_laws C -> cp C mod 4 = 3 -> cn C <= 2 ^ 256 ->
+  forall sig r s, length sig = 64%nat -> bytes_ok sig ->
+  schnorr_parse C sig = Ok (r, s) -> schnorr_serialize r s = Ok sig.
+Proof. intros C SL Hp Hn. exact (serialize_parse C (fun b => b) SL Hp Hn). Qed.
+Print Assumptions C02_serialize_parse.
+
+Theorem C02_reserialize_canon : forall C, scalar_laws C -> cp C mod 4 = 3 -> cn C <= 2 ^ 256 ->
+  forall sig r s, (32 <= length sig)%nat -> bytes_ok sig ->
+  schnorr_parse C sig = Ok (r, s) -> schnorr_serialize r s = Ok (sig_canon sig).
+Proof. intros C SL Hp Hn. exact (reserialize_canon C (fun b => b) SL Hp Hn). Qed.
+Print Assumptions C02_reserialize_canon.
+
+(* SchnorrSignature.parse(SchnorrSignature(R, s).serialize()): the even representative of R, and s *)
+Theorem C02_parse_serialize : forall C, scalar_laws C -> ca C = 0 -> cp C mod 4 = 3 ->
+  cp C <= 2 ^ 256 -> cn C <= 2 ^ 256 ->
+  forall x y s, valid C (Some (x, y)) -> x <> 0 -> 0 <= s < cn C ->
+  exists b, schnorr_serialize (Some (x, y)) s = Ok b /\ length b = 64%nat /\ bytes_ok b /\
+            schnorr_parse C b = Ok (evenP C (Some (x, y)), s).
+Proof. exact parse_serialize. Qed.
+Print Assumptions C02_parse_serialize.
+
+(* SchnorrSignature.parse(a) == SchnorrSignature.parse(b) (the __eq__ of the class) is True exactly
+   for equal accepted strings *)
+Theorem C02_schnorr_parse_eq_iff : forall C, scalar_laws C -> cp C mod 4 = 3 -> cn C <= 2 ^ 256 ->
+  forall a b, length a = 64%nat -> bytes_ok a -> length b = 64%nat -> bytes_ok b ->
+  (schnorr_parse_eq C a b = Ok true <-> a = b /\ exists rs, schnorr_parse C a = Ok rs).
+Proof. intros C SL Hp Hn. exact (schnorr_parse_eq_iff C (fun b => b) SL Hp Hn). Qed.
+Print Assumptions C02_schnorr_parse_eq_iff.
+
+(* sign_schnorr returns an object; .serialize() of it is the byte-level signing function of (1)-(2),
+   and parsing those bytes gives the object back *)
+Theorem C02_sign_via_obj : forall C sha256 d m a,
+  schnorr_sign C sha256 d m a =
+  ('(r, s) <- schnorr_sign_obj C sha256 d m a ;; schnorr_serialize r s).
+Proof. exact schnorr_sign_via_obj. Qed.
+Print Assumptions C02_sign_via_obj.
+
+Theorem C02_sign_obj_roundtrip : forall C sha256,
+  scalar_laws C -> ca C = 0 -> cp C mod 4 = 3 -> cp C <= 2 ^ 256 -> cn C <= 2 ^ 256 ->
+  lift_x C 0 = None ->
+  forall d m a r s, schnorr_sign_obj C sha256 d m a = Ok (r, s) ->
+  exists sig, schnorr_sign C sha256 d m a = Ok sig /\ schnorr_serialize r s = Ok sig /\
+              length sig = 64%nat /\ schnorr_parse C sig = Ok (r, s).
+Proof. exact sign_obj_roundtrip. Qed.
+Print Assumptions C02_sign_obj_roundtrip.
+
+(* ---------------------------------------------------------------- (10) nonce derivation, defaults, errors *)
+
+(* PrivateKey.bip340_k = the nonce k' of BIP340 Default Signing (Spec/Bip340.v bip340_nonce, the prefix
+   of bip340_sign: C02_bip340_sign_from_nonce); both fail for a secret outside [1, n-1] *)
+Theorem C02_bip340_k_eq_spec : forall C sha256, scalar_laws C -> cn C <= 2 ^ 256 ->
+  forall d m a, length m = 32%nat -> length a = 32%nat ->
+  bip340_k C sha256 d m a = opt_res (bip340_nonce C sha256 d m a).
+Proof. exact bip340_k_eq_spec. Qed.
+Print Assumptions C02_bip340_k_eq_spec.
+
+Theorem C02_bip340_sign_from_nonce : forall C sha256 d m a,
+  bip340_sign C sha256 d m a =
+  match bip340_nonce C sha256 d m a with
+  | None => None
+  | Some k' =>
+      if k' =? 0 then None
+      else
+        let P := mulT C d (G C) in
+        let de := if has_even_y P then d else cn C - d in
+        let R := mulT C k' (G C) in
+        let k := if has_even_y R then k' else cn C - k' in
+        let e := int_of (hash_tag sha256 t_challenge (bytesP R ++ bytesP P ++ m)) mod cn C in
+        let sig := bytesP R ++ bytes32 ((k + e * de) mod cn C) in
+        if bip340_verify C sha256 (bytesP P) m sig then Some sig else None
+  end.
+Proof. exact bip340_sign_from_nonce. Qed.
+Print Assumptions C02_bip340_sign_from_nonce.
+
+(* messages / auxiliary values that are not 32 bytes long: ValueError from both entry points *)
+Theorem C02_bip340_k_bad_length : forall C sha256 d m a,
+  length m <> 32%nat \/ length a <> 32%nat -> bip340_k C sha256 d m a = Err.
+Proof. exact bip340_k_bad_length. Qed.
+Print Assumptions C02_bip340_k_bad_length.
+
+Theorem C02_sign_bad_length : forall C sha256 d m a,
+  length m <> 32%nat \/ length a <> 32%nat -> schnorr_sign C sha256 d m a = Err.
+Proof. exact sign_bad_length. Qed.
+Print Assumptions C02_sign_bad_length.
+
+(* for a secret in range signing raises EXACTLY when the derived nonce is 0 (C02_sign_total is one half) *)
+Theorem C02_sign_fails_iff : forall C sha256,
+  scalar_laws C -> ca C = 0 -> cp C mod 4 = 3 -> cp C <= 2 ^ 256 -> cn C <= 2 ^ 256 ->
+  forall d m a, 1 <= d < cn C -> length m = 32%nat -> length a = 32%nat ->
+  (schnorr_sign C sha256 d m a = Err <-> bip340_k C sha256 d m a = Ok 0).
+Proof. exact sign_fails_iff. Qed.
+Print Assumptions C02_sign_fails_iff.
+
+(* sign_schnorr(msg) / sign_schnorr(msg, None) = BIP340 Sign with 32 zero bytes of auxiliary randomness *)
+Theorem C02_sign_default_aux : forall C sha256,
+  scalar_laws C -> ca C = 0 -> cp C mod 4 = 3 -> cp C <= 2 ^ 256 -> cn C <= 2 ^ 256 ->
+  forall d m, length m = 32%nat ->
+  schnorr_sign_opt C sha256 d m None = opt_res (bip340_sign C sha256 d m (repeatz 0 32)).
+Proof.
+  intros C sha256 SL Ha Hp Hp256 Hn256 d m Hm.
+  exact (sign_eq_bip340 C sha256 SL Ha Hp Hp256 Hn256 d m (repeatz 0 32) Hm (repeatz_length 0 32)).
+Qed.
+Print Assumptions C02_sign_default_aux.
+
+(* ---------------------------------------------------------------- (11) TAG_HASH_CACHE inside the Schnorr API *)
+
+(* sign_schnorr / bip340_k / verify_schnorr executed against ANY cache that satisfies the invariant
+   (every binding is tag |-> sha256(tag) * 2): the same results as the cache-free functions of
+   (1)-(3), and the invariant is kept.  No hypothesis about the curve or the hash. *)
+Theorem C02_sign_st_transparent : forall C sha256 c d m a, cache_ok sha256 c ->
+  snd (schnorr_sign_st C sha256 c d m a) = schnorr_sign C sha256 d m a /\
+  cache_ok sha256 (fst (schnorr_sign_st C sha256 c d m a)).
+Proof. exact sign_st_transparent. Qed.
+Print Assumptions C02_sign_st_transparent.
+
+Theorem C02_bip340_k_st_transparent : forall C sha256 c d m a, cache_ok sha256 c ->
+  snd (bip340_k_st C sha256 c d m a) = bip340_k C sha256 d m a /\
+  cache_ok sha256 (fst (bip340_k_st C sha256 c d m a)).
+Proof. exact bip340_k_st_transparent. Qed.
+Print Assumptions C02_bip340_k_st_transparent.
+
+Theorem C02_verify_st_transparent : forall C sha256 c pk m sig, cache_ok sha256 c ->
+  snd (schnorr_verify_bytes_st C sha256 c pk m sig) = schnorr_verify_bytes C sha256 pk m sig /\
+  cache_ok sha256 (fst (schnorr_verify_bytes_st C sha256 c pk m sig)).
+Proof. exact verify_bytes_st_transparent. Qed.
+Print Assumptions C02_verify_st_transparent.
+
+(* a whole session — any interleaving of tagged_hash, sign and verify calls sharing the cache, from
+   any cache satisfying the invariant (in particular the empty one): every answer is the cache-free one *)
+Theorem C02_api_session_transparent : forall C sha256 calls c, cache_ok sha256 c ->
+  snd (api_run C sha256 c calls) = map (api_pure C sha256) calls /\
+  cache_ok sha256 (fst (api_run C sha256 c calls)).
+Proof. exact api_session_transparent. Qed.
+Print Assumptions C02_api_session_transparent.
+
+(* ---------------------------------------------------------------- non-vacuity of (5)-(11): the toy curve *)
+
+Section ToyInstances2.
+Variable sha256 : bytes -> bytes.
+Let sh := toy_shape.
+Let A0 := proj1 sh.
+Let P4 := proj1 (proj2 sh).
+Let P256 := proj1 (proj2 (proj2 sh)).
+Let N256 := proj2 (proj2 (proj2 sh)).
+
+Example toy_verify_object := C02_verify_object toy sha256 toy_scalar_laws A0 P4 P256 N256.
+Example toy_accepts_general := C02_accepts_general toy sha256 toy_scalar_laws A0 P4 P256 N256.
+Example toy_accepts_any_length := C02_accepts_any_length toy sha256 toy_scalar_laws A0 P4 P256 toy_lift_x_0.
+Example toy_verify_bytes_exact := C02_verify_bytes_exact toy sha256 toy_scalar_laws A0 P4 P256 N256.
+Example toy_accepts_sec_key := C02_accepts_sec_key toy sha256 toy_scalar_laws A0 P4 P256 N256 toy_lift_x_0.
+Example toy_reject_R_not_on_curve := C02_reject_R_not_on_curve toy sha256 toy_scalar_laws A0 P4.
+Example toy_reject_bad_key := C02_reject_bad_key toy sha256 toy_scalar_laws A0 P4.
+Example toy_accept_s_unique := C02_accept_s_unique toy sha256 toy_scalar_laws A0 P4 P256 toy_lift_x_0.
+Example toy_sign_other_s_rejected := C02_sign_other_s_rejected toy sha256 toy_scalar_laws A0 P4 P256 N256 toy_lift_x_0.
+Example toy_accept_msg_collision := C02_accept_msg_collision toy sha256 toy_scalar_laws A0 P4 P256 toy_lift_x_0.
+Example toy_serialize_parse := C02_serialize_parse toy toy_scalar_laws P4 N256.
+Example toy_parse_serialize := C02_parse_serialize toy toy_scalar_laws A0 P4 P256 N256.
+Example toy_schnorr_parse_eq_iff := C02_schnorr_parse_eq_iff toy toy_scalar_laws P4 N256.
+Example toy_sign_obj_roundtrip := C02_sign_obj_roundtrip toy sha256 toy_scalar_laws A0 P4 P256 N256 toy_lift_x_0.
+Example toy_bip340_k_eq_spec := C02_bip340_k_eq_spec toy sha256 toy_scalar_laws N256.
+Example toy_sign_fails_iff := C02_sign_fails_iff toy sha256 toy_scalar_laws A0 P4 P256 N256.
+Example toy_sign_default_aux := C02_sign_default_aux toy sha256 toy_scalar_laws A0 P4 P256 N256.
+End ToyInstances2.
+
+(* concrete runs with the toy hash of above (byte sum mod 256): key 3 has ODD y *)
+Definition toy_m : bytes := repeatz 1 32.
+Definition toy_a : bytes := repeatz 0 32.
+Definition toy_P3 : point := mulT toy 3 (G toy).
+Definition toy_sig3 : bytes :=
+  match schnorr_sign toy toy_hash 3 toy_m toy_a with Ok b => b | Err => [] end.
+
+(* (5): the object API on the odd-y key object, with the R object of either parity and with s, s - n, s - 2n *)
+Example toy_object_run :
+  match schnorr_sign_obj toy toy_hash 3 toy_m toy_a, toy_P3 with
+  | Ok (Some (xr, yr), s), Some (xp, yp) =>
+      (yp mod 2 =? 1) && (yr mod 2 =? 0) &&
+      forallb (fun '(R, s') => match schnorr_verify toy toy_hash toy_P3 toy_m R s' with Ok true => true | _ => false end)
+        [(Some (xr, yr), s); (Some (xr, cp toy - yr), s); (Some (xr, yr), s - cn toy); (Some (xr, yr), s - 2 * cn toy)] &&
+      match schnorr_verify toy toy_hash toy_P3 toy_m (Some (xr, yr)) ((s + 1) mod cn toy) with Ok false => true | _ => false end
+  | _, _ => false
+  end = true.
+Proof. vm_compute. reflexivity. Qed.
+
+(* (6): SEC keys of both compressions, an appended byte, a truncated string *)
+Example toy_any_length_run :
+  length toy_sig3 = 64%nat /\
+  (match sec toy_P3 true, sec toy_P3 false with
+   | Ok k33, Ok k65 => schnorr_accepts toy toy_hash k33 toy_m toy_sig3 && schnorr_accepts toy toy_hash k65 toy_m toy_sig3
+   | _, _ => false end) = true /\
+  schnorr_accepts toy toy_hash (xonly toy_P3) toy_m (toy_sig3 ++ [7]) = true /\
+  (* s < 256 on the toy curve: bytes 32..62 are zero, so the 33-byte prefix + last byte reads the same s *)
+  schnorr_accepts toy toy_hash (xonly toy_P3) toy_m (firstn 32 toy_sig3 ++ skipn 63 toy_sig3) = true /\
+  sig_canon (firstn 32 toy_sig3 ++ skipn 63 toy_sig3) = toy_sig3 /\
+  schnorr_accepts toy toy_hash (xonly toy_P3) toy_m (firstn 31 toy_sig3) = false.
+Proof. vm_compute. repeat split; reflexivity. Qed.
+
+(* (7): the reject clauses fire on concrete strings: R = 0, R = p, R = 1 (1 is not an x coordinate on
+   the toy curve), s = n, key = 0 *)
+Example toy_reject_run :
+  let sb := skipn 32 toy_sig3 in let rb := firstn 32 toy_sig3 in let pk := xonly toy_P3 in
+  forallb (fun '(k, sg) => negb (schnorr_accepts toy toy_hash k toy_m sg))
+    [(pk, to_be 32 0 ++ sb); (pk, to_be 32 (cp toy) ++ sb); (pk, to_be 32 1 ++ sb);
+     (pk, rb ++ to_be 32 (cn toy)); (to_be 32 0, toy_sig3)] = true /\
+  lift_x toy 1 = None.
+Proof. vm_compute. split; reflexivity. Qed.
+
+(* all outcomes of C02_verify_bytes_exact occur: True, False (wrong s), False (R = 0), exception (key 0),
+   exception (R = 1 is no x coordinate), exception (s = n) *)
+Example toy_outcomes_run :
+  let sb := skipn 32 toy_sig3 in let rb := firstn 32 toy_sig3 in let pk := xonly toy_P3 in
+  map (fun '(k, sg) => schnorr_verify_bytes toy toy_hash k toy_m sg)
+    [(pk, toy_sig3); (pk, rb ++ to_be 32 5); (pk, to_be 32 0 ++ sb); (to_be 32 0, toy_sig3);
+     (pk, to_be 32 1 ++ sb); (pk, rb ++ to_be 32 (cn toy))]
+  = [Ok true; Ok false; Ok false; Err; Err; Err].
+Proof. vm_compute. reflexivity. Qed.
+
+(* (8): of all 31 values of s exactly one is accepted with the R of the signature *)
+Example toy_s_unique_run :
+  length (filter (fun s => schnorr_accepts toy toy_hash (xonly toy_P3) toy_m (firstn 32 toy_sig3 ++ to_be 32 s))
+                 (map Z.of_nat (seq 0 31))) = 1%nat.
+Proof. vm_compute. reflexivity. Qed.
+
+(* (8): the second disjunct of C02_accept_msg_collision is needed: the toy hash collides (same byte sum),
+   and a different message is accepted with the same signature *)
+Definition toy_m' : bytes := 2 :: 0 :: repeatz 1 30.
+Example toy_msg_collision_run :
+  toy_m' <> toy_m /\ schnorr_accepts toy toy_hash (xonly toy_P3) toy_m toy_sig3 = true /\
+  schnorr_accepts toy toy_hash (xonly toy_P3) toy_m' toy_sig3 = true.
+Proof. split; [discriminate|]. vm_compute. split; reflexivity. Qed.
+
+(* (9): codec round trip and == on concrete strings *)
+Example toy_codec_run :
+  schnorr_reserialize toy toy_sig3 = Ok toy_sig3 /\
+  schnorr_parse_eq toy toy_sig3 toy_sig3 = Ok true /\
+  schnorr_parse_eq toy toy_sig3 (firstn 63 toy_sig3 ++ [1]) = Ok false.
+Proof. vm_compute. repeat split; reflexivity. Qed.
+
+(* (10): default aux, nonce = spec nonce, a zero nonce makes signing fail *)
+Example toy_nonce_run :
+  schnorr_sign_opt toy toy_hash 3 toy_m None = Ok toy_sig3 /\
+  bip340_k toy toy_hash 3 toy_m toy_a = opt_res (bip340_nonce toy toy_hash 3 toy_m toy_a) /\
+  (exists k, bip340_k toy toy_hash 3 toy_m toy_a = Ok k /\ k <> 0) /\
+  (* the constant hash 0 gives the nonce 0: signing fails, as C02_sign_fails_iff says *)
+  bip340_k toy (fun _ => repeatz 0 32) 3 toy_m toy_a = Ok 0 /\
+  schnorr_sign toy (fun _ => repeatz 0 32) 3 toy_m toy_a = Err.
+Proof. vm_compute. repeat split; try reflexivity. eexists. split; [reflexivity|discriminate]. Qed.
+
+(* (11): a session from the empty cache and from a cache that already holds the challenge tag *)
+Definition toy_session : list api_call :=
+  [CallVerify (xonly toy_P3) toy_m (firstn 31 toy_sig3); CallSign 3 toy_m toy_a;
+   CallHash tag_aux [1; 2]; CallVerify (xonly toy_P3) toy_m toy_sig3; CallSign 0 toy_m toy_a;
+   CallVerify (xonly toy_P3) toy_m' toy_sig3; CallSign 1 toy_m (repeatz 9 32)].
+Example toy_session_run :
+  snd (api_run toy toy_hash [] toy_session) = map (api_pure toy toy_hash) toy_session /\
+  map fst (fst (api_run toy toy_hash [] toy_session)) = [tag_challenge; tag_nonce; tag_aux] /\
+  snd (api_run toy toy_hash (fst (th_run toy_hash [] [(tag_challenge, [])])) toy_session)
+    = map (api_pure toy toy_hash) toy_session.
 Proof. vm_compute. repeat split; reflexivity. Qed.
 
 (* The constants written in the model are the constants of the SOURCE: coq/Generated/SrcConsts.v is regenerated
